@@ -70,12 +70,12 @@ m("deltaangle-no-clamp", ["C13"], C + "spatial/deltaangle.py",
 # ---- C03 / C16 / C18 (backends)
 m("numpy-wrap4D-passthrough-writes-operand", ["C16"], "src/vector/backends/numpy.py",
   "            for name in _coordinate_class_to_names[_ttype(self)]:\n                out[name] = self[name]\n            return out.view(cls.ProjectionClass4D)\n\n        elif (\n            len(returns) == 3",
-  "            for name in _coordinate_class_to_names[_ttype(self)]:\n                out[name] = self[name]\n                self.view(numpy.ndarray)[name][...] = out[name] * 1.0 + 0.0 * out[name] + 1e-300\n            return out.view(cls.ProjectionClass4D)\n\n        elif (\n            len(returns) == 3")
-m("numpy-wrap3D-wrong-column", ["C03"], "src/vector/backends/numpy.py",
+  "            for name in _coordinate_class_to_names[_ttype(self)]:\n                out[name] = self[name]\n                self.view(numpy.ndarray)[name][...] = 0.0\n            return out.view(cls.ProjectionClass4D)\n\n        elif (\n            len(returns) == 3")
+m("numpy-wrap3D-wrong-column", ["C04", "C03"], "src/vector/backends/numpy.py",
   "            for name in _coordinate_class_to_names[returns[0]]:\n                out[name] = result[i]\n                i += 1\n            for name in _coordinate_class_to_names[returns[1]]:\n                out[name] = result[i]\n                i += 1\n            return out.view(cls.ProjectionClass3D)\n\n        elif (\n            len(returns) == 3\n            and isinstance(returns[0], type)\n            and issubclass(returns[0], Azimuthal)\n            and isinstance(returns[1], type)\n            and issubclass(returns[1], Longitudinal)\n            and isinstance(returns[2], type)",
   "            for name in _coordinate_class_to_names[returns[0]]:\n                out[name] = result[i]\n                i += 1\n            for name in _coordinate_class_to_names[returns[1]]:\n                out[name] = result[i - 1]\n                i += 1\n            return out.view(cls.ProjectionClass3D)\n\n        elif (\n            len(returns) == 3\n            and isinstance(returns[0], type)\n            and issubclass(returns[0], Azimuthal)\n            and isinstance(returns[1], type)\n            and issubclass(returns[1], Longitudinal)\n            and isinstance(returns[2], type)")
-m("handler-priority-ge", ["C05", "C03"], "src/vector/_methods.py",
-  "        if handler is None or _get_handler_index(obj) > _get_handler_index(handler):", "        if handler is None or _get_handler_index(obj) >= _get_handler_index(handler):")
+m("handler-priority-numpy-over-awkward", ["C05", "C03"], "src/vector/_methods.py",
+  '    "vector.backends.numpy",\n    "vector.backends.sympy",\n    "vector.backends.awkward",\n]', '    "vector.backends.awkward",\n    "vector.backends.sympy",\n    "vector.backends.numpy",\n]')
 m("awkward-broadcast-wrong-index", ["C03", "C18"], "src/vector/backends/awkward.py",
   "                x if isinstance(x, ak.Array) else ak.broadcast_arrays(first, x)[1]\n                for x in result\n            ]\n\n            names = []\n            arrays = []\n            if returns[0] is AzimuthalXY:\n                names.extend([\"x\", \"y\"])\n                arrays.extend([result[0], result[1]])\n            elif returns[0] is AzimuthalRhoPhi:\n                names.extend([\"rho\", \"phi\"])\n                arrays.extend([result[0], result[1]])\n\n            if returns[1] is LongitudinalZ:\n                names.append(\"z\")\n                arrays.append(result[2])\n            elif returns[1] is LongitudinalTheta:\n                names.append(\"theta\")\n                arrays.append(result[2])\n            elif returns[1] is LongitudinalEta:\n                names.append(\"eta\")\n                arrays.append(result[2])\n\n            fields = ak.fields(self)",
   "                x if isinstance(x, ak.Array) else ak.broadcast_arrays(first, x)[1]\n                for x in result\n            ]\n\n            names = []\n            arrays = []\n            if returns[0] is AzimuthalXY:\n                names.extend([\"x\", \"y\"])\n                arrays.extend([result[0], result[1]])\n            elif returns[0] is AzimuthalRhoPhi:\n                names.extend([\"rho\", \"phi\"])\n                arrays.extend([result[0], result[1]])\n\n            if returns[1] is LongitudinalZ:\n                names.append(\"z\")\n                arrays.append(result[2])\n            elif returns[1] is LongitudinalTheta:\n                names.append(\"eta\")\n                arrays.append(result[2])\n            elif returns[1] is LongitudinalEta:\n                names.append(\"eta\")\n                arrays.append(result[2])\n\n            fields = ak.fields(self)")
